@@ -94,6 +94,8 @@ def run(ctx):
             ctx.feature('double-bond-fragments-reversed')
         if case['right_ligand_first']:
             ctx.feature('right-fragment-substituent-first')
+        if case['unlabelled']:
+            ctx.feature('label-shared-by-single-and-double-descriptor')
     for _ in range(ctx.budget(40, 400)):
         suites.run_resolve_case(ctx, 'stereo-malformed', gen_stereo.malformed_case(rng), oracle=None)
 
